@@ -331,6 +331,82 @@ fn pathvm_stage(report: &mut Report, exe: &std::path::Path, threads: usize) {
             }
         }
     }
+    // ---- scopes that disagree: the root of a path must come from `State::get_value` (loop
+    // variables, assignments, the includer's state) and not from the user context. The value
+    // under test is bound to `s`; `a` in the user context is a decoy with the same fields.
+    let decoy = "M3 s:62 M3 s:62 s:4445434f59 s:63 M2 s:62 s:4445434f59 s:78 s:4445434f59 s:78 s:4445434f59 s:63 s:4445434f59 s:78 s:4445434f59";
+    let scoped: [(&str, &str, &str); 5] = [
+        ("set", "{% set a = s %}", ""),
+        ("set_global", "{% set_global a = s %}", ""),
+        ("set_in_if", "{% if true %}{% set a = s %}{% endif %}", ""),
+        ("for", "{% for a in [s] %}", "{% endfor %}"),
+        ("include_in_for", "{% for a in [s] %}{% include \"INC\" %}", "{% endfor %}"),
+    ];
+    let mut scoped_templates: Vec<(String, String)> = Vec::new();
+    for (i, p) in paths.iter().enumerate() {
+        let txt = std::iter::once("a").chain(p.iter().copied()).collect::<Vec<_>>().join(".");
+        for (v, pre, post) in scoped {
+            for (kind, body) in [("l", format!("{{{{ {txt} | probe }}}}")), ("w", format!("{{{{ {txt} }}}}"))] {
+                let name = format!("s{kind}{i}_{v}.html");
+                if v == "include_in_for" {
+                    scoped_templates.push((format!("{name}_inc.html"), body.clone()));
+                    scoped_templates.push((name.clone(), format!("{}{post}", pre.replace("INC", &format!("{name}_inc.html")))));
+                } else {
+                    scoped_templates.push((name, format!("{pre}{body}{post}")));
+                }
+            }
+        }
+    }
+    match (engine_with_probe(&scoped_templates, false), engine_with_probe(&scoped_templates, true)) {
+        (Ok(son), Ok(soff)) => {
+            for (i, p) in paths.iter().enumerate() {
+                let path_arg = std::iter::once("a").chain(p.iter().copied()).map(|n| hex(n.as_bytes())).collect::<Vec<_>>().join(",");
+                for root in &roots {
+                    let mut ctx = Context::new();
+                    ctx.insert_value("a", decode(decoy).expect("decoy"));
+                    if *root != "-" {
+                        ctx.insert_value("s", decode(root).expect("root value"));
+                    }
+                    // an unbound `s` assigns undefined
+                    let model_root = if *root == "-" { "U" } else { root };
+                    for (v, _, _) in scoped {
+                        // an included template treats an undefined value of the includer as absent
+                        // and goes on to the user context (state.rs:106-111): not a case for the decoy
+                        if v == "include_in_for" && (*root == "-" || *root == "U") {
+                            continue;
+                        }
+                        for (mode, engine) in [("f", &son), ("u", &soff)] {
+                            PROBE.with(|pr| *pr.borrow_mut() = None);
+                            let r = catch(std::panic::AssertUnwindSafe(|| engine.render(&format!("sl{i}_{v}.html"), &ctx)));
+                            let probed = PROBE.with(|pr| pr.borrow_mut().take());
+                            let out = match (r, probed) {
+                                (Err(_), _) => "panic".to_string(),
+                                (Ok(_), Some(v)) => format!("ok {}", encode(&v)),
+                                (Ok(Err(_)), None) => "err".to_string(),
+                                (Ok(Ok(_)), None) => "no-probe".to_string(),
+                            };
+                            reqs.push(format!("pv {mode} l a {path_arg} {model_root}"));
+                            real.push(out);
+                            meta.push((i, *root, mode, "load"));
+                            let r = catch(std::panic::AssertUnwindSafe(|| engine.render(&format!("sw{i}_{v}.html"), &ctx)));
+                            let out = match r {
+                                Err(_) => "panic".to_string(),
+                                Ok(Ok(t)) => format!("ok {t}"),
+                                Ok(Err(_)) => "err".to_string(),
+                            };
+                            reqs.push(format!("pv {mode} w a {path_arg} {model_root}"));
+                            real.push(out);
+                            meta.push((i, *root, mode, "write"));
+                            report.count(&format!("pathvm.scoped.{v}"));
+                        }
+                    }
+                }
+            }
+        }
+        (a, b) => {
+            report.violation("model-mismatch", format!("scoped path templates cannot be registered: {:?} {:?}", a.err(), b.err()), serde_json::json!({"detail": {"stage": "pathvm"}}));
+        }
+    }
     let model = match driver::run_batch_parallel(exe, &reqs, threads) {
         Ok(m) => m,
         Err(e) => {
